@@ -603,6 +603,15 @@ CONTRACTS = [variant(AsyncScope, "C02", C02_PREFIX), variant(SyncScope, "C02", C
              variant(ReEnterAsync, "C02", C02_PREFIX), variant(ReEnterSync, "C02", C02_PREFIX)]
 
 
+def _metrics_exit_never_raises(prop):
+    """Every scope scenario treats `ScopeMetrics._finish` (called when a block is left) as a callee that never raises - an
+    exception there would replace the body's outcome and skip the restoring of the state variable.  That is the completion
+    protocol of C09 (a finished scope completes exactly when all scopes nested under it, at any depth, are completed; an
+    ancestor is completed at most once): its contracts are re-checked under every property that leans on it."""
+    from .C09 import CompleteIfAble, Finish
+    return [variant(CompleteIfAble, prop, ("",)), variant(Finish, prop, ("",))]
+
+
 def extra_contracts():
     """Borrowed late (contracts/C08.py imports this module): the scope scenarios treat `Disposables.__aenter__` as a callee
     that leaves the caller's context variables alone - which holds because every disposable is entered in a gather child, a
@@ -615,4 +624,5 @@ def extra_contracts():
     # around it (`ScopeState.updated` returns `self` for an empty update), and resetting a token restores the *object* - what
     # the surrounding code sees afterwards is what that object holds then.  Lookups and updates must not write to it.
     return [variant(Enter, "C02", ("P6:",)), variant(Exit, "C02", ("P4:never-suppresses",)),
-            variant(Lookup, "C02", lambda n: "(frame" in n), variant(Updated, "C02", lambda n: "(frame" in n)]
+            variant(Lookup, "C02", lambda n: "(frame" in n), variant(Updated, "C02", lambda n: "(frame" in n)] + \
+        _metrics_exit_never_raises("C02")
